@@ -130,6 +130,67 @@ Theorem C13_step_ok_sound : forall probes ann before after,
 Proof. exact step_ok_sound. Qed.
 Print Assumptions C13_step_ok_sound.
 
+(* File and admission list are one "current topology": from a state in which the gate admits exactly
+   the members of the stored topology (or the file cannot be read), one refresh - and any sequence of
+   refreshes - ends in such a state again, for every topology whatever its threshold and peer list
+   (no peers, one peer, duplicates, threshold at or above the number of peers); the judge's step
+   predicate (allowed step + file and gate agree afterwards) accepts the model and means this. *)
+Theorem C13_store_gate_agree_refresh : forall H decrypt parse probes st ev,
+  store_gate_agree probes (view_of probes st) = true ->
+  store_gate_agree probes (view_of probes (fst (refresh H decrypt parse st ev))) = true.
+Proof. exact store_gate_agree_refresh. Qed.
+Print Assumptions C13_store_gate_agree_refresh.
+
+Theorem C13_store_gate_agree_run : forall H decrypt parse probes evs st,
+  store_gate_agree probes (view_of probes st) = true ->
+  store_gate_agree probes (view_of probes (run_refresh H decrypt parse st evs)) = true.
+Proof. exact store_gate_agree_run. Qed.
+Print Assumptions C13_store_gate_agree_run.
+
+Theorem C13_store_gate_agree_state : forall probes st,
+  stored st = None \/ stored st = Some (gate st) ->
+  store_gate_agree probes (view_of probes st) = true.
+Proof. exact store_gate_agree_state. Qed.
+Print Assumptions C13_store_gate_agree_state.
+
+Theorem C13_step_spec_model : forall H decrypt parse probes st ev,
+  store_gate_agree probes (view_of probes st) = true ->
+  step_spec probes (announced_topo H decrypt parse ev)
+            (view_of probes st) (view_of probes (fst (refresh H decrypt parse st ev))) = true.
+Proof. exact step_spec_model. Qed.
+Print Assumptions C13_step_spec_model.
+
+Theorem C13_step_spec_sound : forall probes ann before after,
+  step_spec probes ann before after = true ->
+  step_ok probes ann before after = true /\
+  (forall t, v_stored after = Some t ->
+             v_dial after = map (allowed t) probes /\ v_secured after = map (allowed t) probes).
+Proof. exact step_spec_sound. Qed.
+Print Assumptions C13_step_spec_sound.
+
+(* Non-vacuity of the agreement hypothesis and of its use: a degenerate topology (threshold above the
+   number of peers) and an empty one are adopted by file and gate alike; a view whose file holds the
+   new topology while the gate still admits the old members is refused by the judge. *)
+Example C13_store_gate_nonvacuous :
+  let t0 := mk_topo [mk_peer "A" (Some "/ip4/1.1.1.1/tcp/1")] 1 in
+  let t1 := mk_topo [mk_peer "B" (Some "/dns4/b/tcp/2")] 5 in
+  let te := mk_topo [] 1 in
+  let probes := ["A"; "B"; "C"] in
+  let H := fun ct : bytes => "ab" in
+  let parse := fun pt : bytes => if Nat.eqb (List.length pt) 17 then Some t1 else Some te in
+  let r := refresh H (fun ct => ct) parse (adopted t0) in
+  store_gate_agree probes (view_of probes (adopted t0)) = true /\
+  fst (r (mk_event ["ab"] true (repeat 48 34) true)) = adopted t1 /\
+  fst (r (mk_event ["ab"] true (repeat 48 36) true)) = adopted te /\
+  v_dial (view_of probes (adopted t1)) = [false; true; false] /\
+  v_dial (view_of probes (adopted te)) = [false; false; false] /\
+  step_spec probes (Some t1) (view_of probes (adopted t0)) (view_of probes (adopted t1)) = true /\
+  step_spec probes (Some t1) (view_of probes (adopted t0))
+            (mk_view (Some t1) [true; false; false] [true; false; false] [("A", "/ip4/1.1.1.1/tcp/1")]) = false /\
+  step_ok probes (Some t1) (view_of probes (adopted t0))
+          (mk_view (Some t1) [true; false; false] [true; false; false] [("A", "/ip4/1.1.1.1/tcp/1")]) = true.
+Proof. vm_compute. repeat split. Qed.
+
 (* Non-vacuity: with a toy hash / decryption / parser, a genuine event is adopted and a wrong-hash,
    an upper-case-hash, an empty-hash and a short-ciphertext event are not. *)
 Example C13_nonvacuous :
